@@ -28,8 +28,6 @@ def sliding (x K : Nat) : Nat → Nat → List Term
 
 def slidingWindow (x K : Nat) : List Term := (sliding x K (Nat.log2 x + 2) (Nat.log2 x + 1)).reverse
 
-#eval slidingWindow 0b1011001110111 3
-#eval value (slidingWindow 0b1011001110111 3)
 
 theorem advance_spec (x top : Nat) (htop : x.testBit top = true) :
     ∀ (fuel l : Nat), l ≤ top → top - l ≤ fuel →
@@ -121,5 +119,4 @@ theorem sliding_spec (x K : Nat) (hK : 1 ≤ K) : ∀ (fuel hp : Nat), hp ≤ fu
         have : 2 ^ hp ≤ 2 ^ (hp + 1) := Nat.pow_le_pow_right (by omega) (by omega)
         omega
 
-#print axioms sliding_spec
 end P.Bits
